@@ -58,7 +58,8 @@ def argOfJson (j : J) : ArgD :=
 
 def fieldOfJson (j : J) : FieldD :=
   { name := j.strD "name", type := tyOfJson (j.getD "type"), args := (j.arrD "args").map argOfJson,
-    deprecated := optStr j "deprecated", desc := optStr j "desc", resolver := resolverOfJson? j "resolver" }
+    deprecated := optStr j "deprecated", desc := optStr j "desc", resolver := resolverOfJson? j "resolver",
+    subscriptionResolver := resolverOfJson? j "subscription_resolver" }
 
 def enumValOfJson (j : J) : EnumValD :=
   { name := j.strD "name", value := j.getD "value", deprecated := optStr j "deprecated", desc := optStr j "desc" }
